@@ -1010,6 +1010,7 @@ func coverageByFile(covdata string) map[string]string {
 // race reports (C18 part B)
 
 type raceReport struct {
+	Burst bool
 	Index int
 	Sig   string
 	Text  string
@@ -1056,11 +1057,16 @@ func globalSymbol(addr uint64) string {
 func parseRaces(log string) []raceReport {
 	var out []raceReport
 	index := -1
+	burst := false
 	lines := strings.Split(log, "\n")
 	for i := 0; i < len(lines); i++ {
 		l := lines[i]
 		if strings.HasPrefix(l, "##INDEX ") {
-			index, _ = strconv.Atoi(strings.TrimSpace(l[8:]))
+			f := strings.Fields(l[8:])
+			if len(f) > 0 {
+				index, _ = strconv.Atoi(f[0])
+			}
+			burst = len(f) > 1 && f[1] == "burst"
 			continue
 		}
 		if !strings.HasPrefix(l, "WARNING: DATA RACE") {
@@ -1101,7 +1107,7 @@ func parseRaces(log string) []raceReport {
 			}
 			frames = append(frames, f)
 		}
-		rr := raceReport{Index: index, Text: strings.Join(block, "\n")}
+		rr := raceReport{Index: index, Burst: burst, Text: strings.Join(block, "\n")}
 		for _, f := range frames {
 			if f != "?" {
 				rr.Ion = true
@@ -1142,7 +1148,7 @@ func collectRaces(bdir string, seed uint64) (viols []scenario.Violation, harness
 				harness = append(harness, rr.Text)
 				continue
 			}
-			cs := scenario.ConcCaseJSON(seed, rr.Index)
+			cs := scenario.ConcCaseJSON(seed, rr.Index, rr.Burst)
 			txt := rr.Text
 			if len(txt) > 2500 {
 				txt = txt[:2500] + "..."
